@@ -10,7 +10,9 @@ predicate the driver evaluates on the *implementation's* snapshots.
 
 Operations (`Op`): `append d`, `extend ds`, `remove d`, `clear`, `newGroup`, `removeGroup g`,
 `setState/setLabel/setStyle g v`, `merge ds`, `setItem key d` (`dc[key] = d`), `restore`
-(session save + load).  `RemoveData.undo` is `append`, `AddData.undo` is `remove` (command.py).
+(session save + load), and `doCmd add d` / `undo` / `redo`: the `AddData` / `RemoveData` commands
+run, undone and redone through a `CommandStack` (`RemoveData.undo` is `append`, `AddData.undo` is
+`remove`; command.py).
 -/
 namespace GlueVerif.C06
 open GlueVerif.Collection
@@ -55,9 +57,11 @@ theorem reachable_ordered (n colors : Nat) (ops : List Op) :
   exact ⟨h.dataGroups, h.groupDatas, h.removedEmpty⟩
 
 /-- In every reachable state a session save / restore round trip leaves the whole bookkeeping
-(collection, attachment lists, group lists, subscriptions) exactly as it was. -/
+(collection, attachment lists, group lists, subscriptions, counters) exactly as it was; only the
+command stack starts empty in the restored session. -/
 theorem restore_roundtrip (n colors : Nat) (ops : List Op) :
-    restore (Impl.run (init n colors) ops) = Impl.run (init n colors) ops :=
+    restore (Impl.run (init n colors) ops) =
+      { Impl.run (init n colors) ops with done := [], undone := [] } :=
   Lemmas.C06.restore_eq _ (reachable_inv n colors ops)
 
 /-! ### the invariant is not vacuous -/
@@ -73,6 +77,14 @@ example :
 example :
     let st := Impl.run (init 3 7) [.extend [0, 1], .newGroup, .merge [0, 1], .setItem 0 2, .restore]
     st.datasets = [2] ∧ st.nData = 4 ∧ st.dsubs 2 = [⟨3, some 2, 0⟩] ∧ st.dsubs 3 = [] := by decide
+
+/-- undo of `RemoveData` gives the dataset back exactly one (new) subset per live group. -/
+example :
+    let st := Impl.run (init 2 7) [.doCmd true 0, .newGroup, .doCmd false 0, .newGroup, .undo, .undo, .redo]
+    st.datasets = [0] ∧ st.dsubs 0 = [⟨3, some 0, 0⟩, ⟨4, some 0, 1⟩] ∧
+    st.done = [(true, 0)] ∧ st.undone = [(false, 0)] ∧
+    (Impl.run (init 2 7) [.doCmd true 0, .newGroup, .doCmd false 0, .newGroup, .undo]).dsubs 0
+      = [⟨1, some 0, 0⟩, ⟨2, some 0, 1⟩] := by decide
 
 /-! ### witnesses: the code before `fix: F3-remove-data-detach` breaks the property (F3) -/
 
